@@ -11,7 +11,11 @@ package main
 
 import (
 	"go/ast"
+	"go/printer"
 	"go/token"
+	"os"
+	"path/filepath"
+	"sort"
 	"strconv"
 	"strings"
 )
@@ -237,6 +241,201 @@ func (g *gen) payloads() {
 	g.p("Definition gen_reason_spam : bytes := hex \"%s\".\n", hexOf([]byte(v)))
 	_ = strconv.Itoa
 	g.saslerr()
+	g.reuseSites()
+	g.formLoops()
+}
+
+func (g *gen) exprText(n ast.Node) string {
+	var sb strings.Builder
+	_ = printer.Fprint(&sb, g.fset, n)
+	return strings.Join(strings.Fields(sb.String()), " ")
+}
+
+// rootIdent returns the identifier at the root of a selector/index chain.
+func rootIdent(e ast.Expr) string {
+	for {
+		switch x := e.(type) {
+		case *ast.SelectorExpr:
+			e = x.X
+		case *ast.IndexExpr:
+			e = x.X
+		case *ast.ParenExpr:
+			e = x.X
+		case *ast.StarExpr:
+			e = x.X
+		case *ast.Ident:
+			return x.Name
+		default:
+			return ""
+		}
+	}
+}
+
+var payloadDirs = []string{"form", "disco", "disco/info", "disco/items", "paging", "delay", "stanza", "xtime", "forward", "carbons",
+	"receipts", "roster", "blocklist", "bookmarks", "pubsub", "history", "muc", "commands", "oob", "version", "upload", "bin",
+	"file", "crypto", "styling", "internal/saslerr"}
+
+// reuseSites: in every UnmarshalXML method of the payload packages, the statements through
+// which the result can depend on what the destination held before the call: a field of the
+// receiver resliced from itself (x.f = x.f[:n]), appended to (x.f = append(x.f, ...)) or
+// accumulated (x.f += ...), each with the condition of the innermost enclosing if statement.
+func (g *gen) reuseSites() {
+	g.p("\n(* ---- UnmarshalXML bodies: receiver fields re-used (file, receiver type, statement, innermost guard) ---- *)\n")
+	g.p("Definition gen_reuse_sites : list (bytes * bytes * bytes * bytes) := [\n")
+	first := true
+	for _, dir := range payloadDirs {
+		ents, err := os.ReadDir(filepath.Join(*repo, dir))
+		if err != nil {
+			continue
+		}
+		var names []string
+		for _, e := range ents {
+			n := e.Name()
+			if !e.IsDir() && strings.HasSuffix(n, ".go") && !strings.HasSuffix(n, "_test.go") {
+				names = append(names, n)
+			}
+		}
+		sort.Strings(names)
+		for _, n := range names {
+			rel := dir + "/" + n
+			f := safeParse(g, rel)
+			if f == nil {
+				continue
+			}
+			for _, d := range f.Decls {
+				fd, is := d.(*ast.FuncDecl)
+				if !is || fd.Name.Name != "UnmarshalXML" || fd.Recv == nil || len(fd.Recv.List) != 1 || fd.Body == nil || len(fd.Recv.List[0].Names) != 1 {
+					continue
+				}
+				recv := fd.Recv.List[0].Names[0].Name
+				rtype := g.exprText(fd.Recv.List[0].Type)
+				var guards []ast.Expr
+				var walk func(n ast.Node)
+				walk = func(n ast.Node) {
+					ast.Inspect(n, func(m ast.Node) bool {
+						switch st := m.(type) {
+						case *ast.IfStmt:
+							if st.Init != nil {
+								walk(st.Init)
+							}
+							guards = append(guards, st.Cond)
+							walk(st.Body)
+							guards = guards[:len(guards)-1]
+							if st.Else != nil {
+								walk(st.Else)
+							}
+							return false
+						case *ast.AssignStmt:
+							if len(st.Lhs) != 1 || len(st.Rhs) != 1 || rootIdent(st.Lhs[0]) != recv {
+								return true
+							}
+							if _, isSel := st.Lhs[0].(*ast.SelectorExpr); !isSel {
+								return true
+							}
+							l := g.exprText(st.Lhs[0])
+							site := false
+							switch st.Tok {
+							case token.ADD_ASSIGN:
+								site = true
+							case token.ASSIGN:
+								switch r := st.Rhs[0].(type) {
+								case *ast.SliceExpr:
+									site = g.exprText(r.X) == l
+								case *ast.CallExpr:
+									site = callName(r) == "append" && len(r.Args) > 0 && g.exprText(r.Args[0]) == l
+								}
+							}
+							if site {
+								guard := ""
+								if len(guards) > 0 {
+									guard = g.exprText(guards[len(guards)-1])
+								}
+								if !first {
+									g.p(";\n")
+								}
+								first = false
+								g.p("  (hex \"%s\", hex \"%s\", hex \"%s\", hex \"%s\")", hexOf([]byte(rel)), hexOf([]byte(rtype)), hexOf([]byte(g.exprText(st))), hexOf([]byte(guard)))
+							}
+						}
+						return true
+					})
+				}
+				walk(fd.Body)
+			}
+		}
+	}
+	g.p("\n].\n")
+}
+
+// formLoops: form.Data.TokenReader and Submit derive a token stream from the form; they must not
+// write into it. For each loop over a .fields slice in those two methods: does the loop
+// variable hold a copy of the element (for _, f := range x.fields)? And: is the address of an
+// element taken (&x.fields[i]) or an element assigned through (x.fields[i]... = ) anywhere in them?
+func (g *gen) formLoops() {
+	g.p("\n(* ---- form/form.go TokenReader, Submit: loops over the fields (method, ranges over a copy) ---- *)\n")
+	f := safeParse(g, "form/form.go")
+	type loop struct {
+		fn   string
+		copy bool
+	}
+	var loops []loop
+	through := false
+	if f != nil {
+		for _, name := range []string{"TokenReader", "Submit"} {
+			fd := methodOf(f, "Data", name)
+			if fd == nil || fd.Body == nil {
+				loops = append(loops, loop{name + ":missing", false})
+				continue
+			}
+			isFields := func(e ast.Expr) bool {
+				se, is := e.(*ast.SelectorExpr)
+				return is && se.Sel.Name == "fields"
+			}
+			ast.Inspect(fd.Body, func(n ast.Node) bool {
+				switch x := n.(type) {
+				case *ast.RangeStmt:
+					if isFields(x.X) {
+						loops = append(loops, loop{name, x.Value != nil})
+					}
+				case *ast.ForStmt:
+					// an index loop over the fields (for i := 0; i < len(x.fields); i++)
+					if x.Cond != nil && strings.Contains(g.exprText(x.Cond), ".fields") {
+						loops = append(loops, loop{name, false})
+					}
+				case *ast.UnaryExpr:
+					if x.Op == token.AND {
+						if ie, is := x.X.(*ast.IndexExpr); is && isFields(ie.X) {
+							through = true
+						}
+					}
+				case *ast.AssignStmt:
+					for _, l := range x.Lhs {
+						e := l
+						for {
+							if se, is := e.(*ast.SelectorExpr); is {
+								e = se.X
+								continue
+							}
+							break
+						}
+						if ie, is := e.(*ast.IndexExpr); is && isFields(ie.X) {
+							through = true
+						}
+					}
+				}
+				return true
+			})
+		}
+	}
+	g.p("Definition gen_form_field_loops : list (bytes * bool) := [")
+	for i, l := range loops {
+		if i > 0 {
+			g.p("; ")
+		}
+		g.p("(hex \"%s\", %v)", hexOf([]byte(l.fn)), l.copy)
+	}
+	g.p("].\n")
+	g.p("Definition gen_form_writes_through_fields : bool := %v.\n", through)
 }
 
 // cmpOp encodes a comparison operator: 0 >=, 1 >, 2 <, 3 <=, 4 ==, 9 anything else.
